@@ -225,7 +225,7 @@ def make_ks(model, mol, uks, gcfg, mdesc):
             nrad=80,
             **kw,
         )
-    ks = make_cider_calc(ks, model, xmix=mdesc.get("xmix", 0.5), xkernel="GGA_X_PBE", ckernel="GGA_C_PBE", nldf_init=nldf_init)
+    ks = make_cider_calc(ks, model, xmix=mdesc.get("xmix", 0.5), xkernel="GGA_X_PBE", ckernel="GGA_C_PBE", nldf_init=nldf_init, rhocut=mdesc.get("rhocut"))
     ks.grids.verbose = 0
     ks._verif_kw = (kw, {k: float(v) for k, v in kw.items()}) if kw else None  # (lmax is an int: float() is exact)
     return ks
@@ -264,7 +264,7 @@ def gen_ni_history(seed):
     models = []
     for _ in range(nm):
         s, ev, mode, ver = rng.choice(NI_MODELS)
-        models.append({"settings": s, "ev": ev, "mode": mode, "version": ver, "seed": rng.below(10**6), "plan_type": rng.choice(["gaussian", "spline"]), "interp": rng.choice(["onsite_direct", "onsite_spline"]), "xmix": rng.choice([1.0, 0.5, 0.25]), "zero_d": bool(rng.chance(0.3)), "alpha_max": rng.choice([300.0, 1000.0, 3000.0, 3000.0]), "lmax": rng.choice([None, None, None, 6, 8])})
+        models.append({"settings": s, "ev": ev, "mode": mode, "version": ver, "seed": rng.below(10**6), "plan_type": rng.choice(["gaussian", "spline"]), "interp": rng.choice(["onsite_direct", "onsite_spline"]), "xmix": rng.choice([1.0, 0.5, 0.25]), "zero_d": bool(rng.chance(0.3)), "alpha_max": rng.choice([300.0, 1000.0, 3000.0, 3000.0]), "lmax": rng.choice([None, None, None, 6, 8]), "rhocut": rng.choice([None, None, None, 1e-6, 1e-4, 1e-3])})
     nmol = rng.randint(1, 3)
     mols = []
     for _ in range(nmol):
@@ -327,7 +327,9 @@ def gen_ni_history(seed):
                     # a rejection, not a result, so only stacked arrays are generated
                     # (a batch of one - shape (1, nao, nao) / (2, 1, nao, nao) - is a batch too)
                     "container": "array" if (nset > 1 or rng.chance(0.2)) else "single",
-                    "alias": rng.choice([None, None, None, "readonly", "fortran", "sameab"]),
+                    # ("rdm2d": a closed-shell matrix handed to the unrestricted entry point, which
+                    # PySCF turns into one array object used for both spins)
+                    "alias": rng.choice([None, None, None, "readonly", "fortran", "sameab", "rdm2d"]),
                 }
             )
             if rng.chance(0.1):
@@ -397,9 +399,9 @@ def exec_ni_history(hist, rp):
     refs = _SHARED_REFS.setdefault(json.dumps([hist["models"], hist["mols"], hist["grids"]], sort_keys=True), {}) if hist.get("share_refs") else {}
     judge_from = int(hist.get("judge_from", 0))
 
-    def reference(mi, k, gi, uks, j, scale=1.0):
+    def reference(mi, k, gi, uks, j, scale=1.0, rdm2d=False):
         """fresh objects, nset = 1, default max_memory, one call, other allocator pattern"""
-        key = (mi, json.dumps(hist["mols"][k], sort_keys=True), json.dumps(hist["grids"][gi], sort_keys=True), uks, j, scale)
+        key = (mi, json.dumps(hist["mols"][k], sort_keys=True), json.dumps(hist["grids"][gi], sort_keys=True), uks, j, scale, rdm2d)
         if key not in refs:
             set_perturb(hist["perturb"] ^ 0x5A)
             model = U.fresh_model(mi)
@@ -408,6 +410,8 @@ def exec_ni_history(hist, rp):
             ks.build()
             g = build_grids(ks, mol)
             dm = np.array(U.dm(k, 2 if uks else 1, j), copy=True) * scale
+            if rdm2d:
+                dm = np.array(U.dm(k, 1, j), copy=True)
             fn = ks._numint.nr_uks if uks else ks._numint.nr_rks
             try:
                 n, e, v = fn(mol, g, ks.xc, dm)
@@ -522,6 +526,9 @@ def exec_ni_history(hist, rp):
         elif op["alias"] == "sameab" and uks and op["container"] == "single":
             arg = np.stack([dms[0][0], dms[0][0]])  # both channels... still two arrays
             arg = (arg[0], arg[0])  # the *same* array object as alpha and beta
+        rdm2d = bool(op["alias"] == "rdm2d" and uks and op["container"] == "single" and scale == 1.0)
+        if rdm2d:
+            arg = np.array(U.dm(k, 1, op["dms"][0]), copy=True)
         before = adigest(*(arg if isinstance(arg, (list, tuple)) else [arg]), g.coords, g.weights, mol._atm, mol._bas, mol._env)
         fn = ni.nr_uks if uks else ni.nr_rks
         inj = for_op(op)
@@ -590,7 +597,7 @@ def exec_ni_history(hist, rp):
         e = np.asarray(e)
         held.append(("vmat", v, np.array(v, copy=True)))
         held.append(("nelec", n, np.array(n, copy=True)))
-        if scale == 1.0 and op["alias"] != "sameab":
+        if scale == 1.0 and op["alias"] != "sameab" and not rdm2d:
             last_call["op"] = {k_: v_ for k_, v_ in op.items() if k_ != "fault"}
             last_call["out"] = (np.array(n, copy=True), np.array(e, copy=True), np.array(v, copy=True))
             last_call.setdefault("all", {})[step] = (last_call["op"], last_call["out"])
@@ -598,7 +605,7 @@ def exec_ni_history(hist, rp):
         for idx, j in enumerate(op["dms"]):
             if op["alias"] == "sameab" or step < judge_from:
                 continue  # other input than the memoised reference; only the mutation check applies
-            rref = reference(mi, k, gi, uks, j, scale)
+            rref = reference(mi, k, gi, uks, j, scale, rdm2d)
             if rref == "rejected":
                 V("history_vs_fresh:%s:accepts-what-fresh-objects-reject" % site, "step %d: fresh objects raise 'NLDF exponent is too large' for this request, the long-lived calculator returned numbers" % step)
                 continue
@@ -1297,6 +1304,15 @@ def gen_plan_history(seed):
             # the plans' public coefficient API, as the generators and the GPAW driver call it
             ops.append({"op": "coef", "spin": s, "what": rng.choice(["a2q", "a2q", "interp"]), "i": rng.choice([-1, 0]), "fwd": bool(rng.chance(0.5)), "inplace": bool(rng.chance(0.3)), "x": rng.below(3), "twice": bool(rng.chance(0.5)), "alias": rng.choice([None, None, "readonly"]), "obj": rng.below(nobj)})
             continue
+        if rng.chance(0.2):
+            # the integrators hand the plan one block of grid points at a time: a sub-range of the
+            # samples (of any length, e.g. as many points as interpolation exponents, or one)
+            ln = rng.choice([p["nalpha"], p["nalpha"], 1, 7, p["n"] // 2, p["nalpha"] + 1])
+            ln = max(1, min(ln, p["n"]))
+            a = rng.below(p["n"] - ln + 1)
+            ops.append({"op": "rho_blk", "spin": s, "f": rng.below(3), "rho": rng.below(3), "a": a, "b": a + ln, "obj": rng.below(nobj)})
+            have.discard(s)
+            continue
         if s in have and rng.chance(0.5):
             ops.append({"op": "vxc", "spin": s, "v": rng.below(3), "obj": rng.below(nobj)})
         else:
@@ -1427,6 +1443,29 @@ def exec_plan_history(hist, rp):
                     stats["comparisons"] += 1
                     if not ok:
                         V("repeat:%s.coef:%s" % (site, op["what"]), "step %d: second call with the same array differs: %s" % (step, why))
+                continue
+            if op["op"] == "rho_blk":
+                a_, b_ = op["a"], op["b"]
+                gax = [ax for ax, d in enumerate(shape) if d == n and plan.zero_coefs_full(n + 1).shape[ax] == n + 1]
+                if len(gax) != 1:
+                    continue
+                sl = [slice(None)] * len(shape)
+                sl[gax[0]] = slice(a_, b_)
+                f_in = np.ascontiguousarray(fs[op["f"]][tuple(sl)])
+                r_in = np.ascontiguousarray(rhos[op["rho"]][:, a_:b_])
+                feat, dfeat = plan.eval_rho_full(f_in, r_in, spin=s, cache_p=True)
+                feat, dfeat = np.array(feat, copy=True), np.array(dfeat, copy=True)
+                last.pop(sk, None)
+                rf, rd = ref_rho(op["f"], op["rho"], s)
+                stats["plan_calls_on_a_block_of_samples"] += 1
+                stats["plan_block_length_equals_nalpha"] += int(b_ - a_ == p["nalpha"])
+                for name, got, want in (("feat", feat, rf), ("dfeat", dfeat, rd)):
+                    if want.shape[-1] != n or got.shape[-1] != b_ - a_:
+                        continue
+                    ok, why = close(got, want[..., a_:b_])
+                    stats["comparisons"] += 1
+                    if not ok:
+                        V("block_vs_whole:%s.eval_rho_full:%s:spin%d" % (site, name, s), "step %d: samples %d..%d evaluated alone differ from the same samples inside the whole set: %s" % (step, a_, b_, why))
                 continue
             if op["op"] == "rho":
                 f_in, r_in = fs[op["f"]].copy(), rhos[op["rho"]].copy()
